@@ -356,12 +356,13 @@ def recipe_untracked_zombies(rng):
 def recipe_topup_start(rng):
     """several watchers started together while a running one is short of workers"""
     sc = {"arb": {"warmup_ms": rng.choice([0, 100])}, "behav": [{"term": ["obey", 0], "kill_lat": 0}],
-          "watchers": [_w("a", np=rng.choice([2, 3]), priority=2, warmup_ms=rng.choice([100, 300])),
+          "watchers": [_w("a", np=rng.choice([2, 3]), priority=2, warmup_ms=rng.choice([100, 300]), respawn=False),
                        _w("B", np=rng.choice([1, 2]), priority=0, warmup_ms=100)]}
     pre = [["start"]] + [["wake"]] * 8 + [_req("stop", "q1", name="B", waiting=True)] + [["wake"]] * 3
     pre += [lambda v: ["die", (v.pids.get("a") or [100])[0], 0]]
     if rng.random() < 0.5:
         pre += [lambda v: ["die", (v.pids.get("a") or [100, 101])[-1], 9]]
+    pre += [["check"]]        # respawn is off: the dead workers are reaped and not replaced, "a" is short of workers
     pre += [_req("start", "q2", name="*", waiting=rng.random() < 0.5)] + [["wake"]] * 8
     return sc, pre
 
